@@ -17,21 +17,24 @@ def payNat (e : Elem) : Nat :=
   | .val b => b
   | .ref _ => 0
 
-theorem mapM_elemByte (es : List Elem) (h : ∀ e ∈ es, e.isPlain) :
-    es.mapM elemByte = .ok (es.map payNat) := by
+/-- `e` is a plain value of the caller's byte type `T` -/
+def IsByteOf (isT : Elem → Bool) (e : Elem) : Prop := e.isPlain ∧ isT e = true
+
+theorem mapM_elemByte (isT : Elem → Bool) (es : List Elem) (h : ∀ e ∈ es, IsByteOf isT e) :
+    es.mapM (elemByte isT) = .ok (es.map payNat) := by
   induction es with
   | nil => rfl
   | cons e es ih =>
-    obtain ⟨n, hn⟩ := h e (by simp)
+    obtain ⟨⟨n, hn⟩, ht⟩ := h e (by simp)
     have ih := ih (fun x hx => h x (by simp [hx]))
-    simp only [List.mapM_cons, ih, elemByte, hn, bind, Except.bind, pure, Except.pure, List.map_cons, payNat]
+    simp only [List.mapM_cons, ih, elemByte, hn, ht, if_true, bind, Except.bind, pure, Except.pure, List.map_cons, payNat]
 
 /-- following the sibling links from `cur` collects the bytes of `cur` and of all slabs after it -/
-theorem collectFrom_spec : ∀ (rest pre : List DataSlab) (cur : DataSlab) (fuel : Nat),
+theorem collectFrom_spec (isT : Elem → Bool) : ∀ (rest pre : List DataSlab) (cur : DataSlab) (fuel : Nat),
     LeafChain (cur :: rest) → ((pre ++ cur :: rest).map (·.hdr.id)).Nodup →
     (∀ s ∈ pre ++ cur :: rest, s.hdr.id ≠ SlabID.undef) → rest.length + 1 ≤ fuel →
-    (∀ s ∈ cur :: rest, ∀ e ∈ s.elems, e.isPlain) →
-    collectFrom (pre ++ cur :: rest) fuel cur = .ok ((cur.elems ++ rest.flatMap (·.elems)).map payNat) := by
+    (∀ s ∈ cur :: rest, ∀ e ∈ s.elems, IsByteOf isT e) →
+    collectFrom isT (pre ++ cur :: rest) fuel cur = .ok ((cur.elems ++ rest.flatMap (·.elems)).map payNat) := by
   intro rest
   induction rest with
   | nil =>
@@ -39,7 +42,7 @@ theorem collectFrom_spec : ∀ (rest pre : List DataSlab) (cur : DataSlab) (fuel
     obtain ⟨f, rfl⟩ : ∃ f, fuel = f + 1 := ⟨fuel - 1, by simp at hfuel; omega⟩
     have hnext : cur.next = SlabID.undef := hchain
     unfold collectFrom
-    simp only [mapM_elemByte _ (hp cur (by simp)), hnext, if_true, bind, Except.bind, pure, Except.pure,
+    simp only [mapM_elemByte isT _ (hp cur (by simp)), hnext, if_true, bind, Except.bind, pure, Except.pure,
       List.flatMap_nil, List.append_nil]
   | cons nxt rest ih =>
     intro pre cur fuel hchain hnd hdef hfuel hp
@@ -50,14 +53,14 @@ theorem collectFrom_spec : ∀ (rest pre : List DataSlab) (cur : DataSlab) (fuel
     have hrec := ih (pre ++ [cur]) nxt f hchain' (by rw [← hsplit]; exact hnd)
       (by rw [← hsplit]; exact hdef) (by simp at hfuel ⊢; omega) (fun s hs => hp s (by simp [hs]))
     unfold collectFrom
-    simp only [mapM_elemByte _ (hp cur (by simp)), hnext, hnu, if_false, bind, Except.bind, pure, Except.pure,
+    simp only [mapM_elemByte isT _ (hp cur (by simp)), hnext, hnu, if_false, bind, Except.bind, pure, Except.pure,
       find?_next pre rest cur nxt hnd]
     rw [hsplit, hrec]
     simp
 
 /-- `ByteArrayToByteSlice` on a valid array of plain values returns the payloads in order. -/
-theorem byteArrayToByteSlice_spec (a : Arr) (ctr : Nat) (h : ArrInv T a ctr)
-    (hp : ∀ e ∈ a.toList, e.isPlain) : byteArrayToByteSlice a = .ok (a.toList.map payNat) := by
+theorem byteArrayToByteSlice_spec (isT : Elem → Bool) (a : Arr) (ctr : Nat) (h : ArrInv T a ctr)
+    (hp : ∀ e ∈ a.toList, IsByteOf isT e) : byteArrayToByteSlice isT a = .ok (a.toList.map payNat) := by
   obtain ⟨d, t, ty⟩ := a
   have hfl := leaves_flatMap_elems d t
   have hcount : (hdr d t).count = (flatten d t).length := h.shape.count_eq_length
@@ -70,7 +73,7 @@ theorem byteArrayToByteSlice_spec (a : Arr) (ctr : Nat) (h : ArrInv T a ctr)
     rw [heq] at this
     simp [SlabID.undef] at this
   have hchain : LeafChain (Arr.leaves d t) := h.chain
-  have hp' : ∀ s ∈ Arr.leaves d t, ∀ e ∈ s.elems, e.isPlain := by
+  have hp' : ∀ s ∈ Arr.leaves d t, ∀ e ∈ s.elems, IsByteOf isT e := by
     intro s hs e he
     apply hp e
     show e ∈ flatten d t
@@ -79,7 +82,7 @@ theorem byteArrayToByteSlice_spec (a : Arr) (ctr : Nat) (h : ArrInv T a ctr)
   show (if (hdr d t).count = 0 then Except.ok []
       else match Arr.leaves d t with
         | [] => .error (.arr .slabNotFound)
-        | first :: _ => collectFrom (Arr.leaves d t) ((Arr.leaves d t).length + 1) first) = .ok ((flatten d t).map payNat)
+        | first :: _ => collectFrom isT (Arr.leaves d t) ((Arr.leaves d t).length + 1) first) = .ok ((flatten d t).map payNat)
   by_cases h0 : (hdr d t).count = 0
   · rw [if_pos h0]
     have : (flatten d t).length = 0 := by omega
@@ -94,7 +97,7 @@ theorem byteArrayToByteSlice_spec (a : Arr) (ctr : Nat) (h : ArrInv T a ctr)
     | first :: rest =>
       simp only
       rw [hl] at hnd hdef hchain hfl hp'
-      have := collectFrom_spec rest [] first ((first :: rest).length + 1) hchain
+      have := collectFrom_spec isT rest [] first ((first :: rest).length + 1) hchain
         (by simpa using hnd) (by simpa using hdef) (by simp) hp'
       simp only [List.nil_append] at this
       rw [this, ← List.flatMap_cons (f := fun s : DataSlab => s.elems), hfl]
@@ -164,22 +167,23 @@ theorem zipWith_fst_eq {α β : Type} (l : List α) (cs : List β) (h : cs.lengt
     `ByteSliceToByteArray` succeeds with a valid array whose elements are the bytes (in order),
     and `ByteArrayToByteSlice` of that array is the original byte list. -/
 theorem bytes_roundtrip_full (hT : legalThreshold T = true) (addr ty est : Nat) (bsize : Nat → Nat)
+    (isT : Elem → Bool) (hisT : ∀ b, isT (byteElem bsize b) = true)
     (bs : List Nat) (hb : ∀ b ∈ bs, 1 ≤ bsize b ∧ bsize b ≤ maxInlineArr T)
     (hlen : bs.length < maxArrayElementCount + 1) (c : Ctx) :
     ∃ a c', byteSliceToByteArray T addr ty bsize bs est c = .ok (a, c') ∧ ArrInv T a c'.ctr ∧
-      a.toList = bs.map (byteElem bsize) ∧ a.ty = ty ∧ byteArrayToByteSlice a = .ok bs := by
-  have hplain : ∀ e ∈ bs.map (byteElem bsize), e.isPlain := by
+      a.toList = bs.map (byteElem bsize) ∧ a.ty = ty ∧ byteArrayToByteSlice isT a = .ok bs := by
+  have hplain : ∀ e ∈ bs.map (byteElem bsize), IsByteOf isT e := by
     intro e he
     obtain ⟨b, _, hbe⟩ := List.mem_map.1 he
-    exact ⟨b, by rw [← hbe]; rfl⟩
+    exact ⟨⟨b, by rw [← hbe]; rfl⟩, by rw [← hbe]; exact hisT b⟩
   have hok : ∀ e ∈ bs.map (byteElem bsize), ElemOk T e := by
     intro e he
     obtain ⟨b, hbm, hbe⟩ := List.mem_map.1 he
     rw [← hbe]; exact hb b hbm
   have hfinal : ∀ (a : Arr) (ctr : Nat), ArrInv T a ctr → a.toList = bs.map (byteElem bsize) →
-      byteArrayToByteSlice a = .ok bs := by
+      byteArrayToByteSlice isT a = .ok bs := by
     intro a ctr ha hto
-    rw [byteArrayToByteSlice_spec a ctr ha (by rw [hto]; exact hplain), hto, map_payNat_byteElem]
+    rw [byteArrayToByteSlice_spec isT a ctr ha (by rw [hto]; exact hplain), hto, map_payNat_byteElem]
   unfold byteSliceToByteArray
   by_cases hemp : bs.isEmpty = true
   · have : bs = [] := by simpa using hemp
